@@ -178,6 +178,12 @@ def build_pool(tier):
         for si in (0, 4):
             P.append({"api": "ddp", "s": phrase, "lang": None, "locales": [loc], "si": si, "nobase": False, "grp": "relloc"})
             P.append({"api": "parse", "s": phrase, "lang": lang, "si": si, "nobase": False, "grp": "relloc"})
+    # search_dates with several languages: the same set in different orders (the language of a text is chosen among them), on
+    # texts where the order decides (dates of two of the languages, digits only, a tie)
+    for t in ("12 janvier 2020 ; 14 Januar 2021", "02/03/2015, 1.2.2003", "3 mars 2011 ; 3. März 2011", "12 May 2015 ; 12 mai 2015",
+              "le 5 juin 2019"):
+        for langs in (["fr", "de"], ["de", "fr"], ["en", "fr", "de"], ["de", "en", "fr"], ["fr", "en"], ["en", "fr"]):
+            P.append({"api": "search", "s": t, "lang": None, "langs": langs, "si": 0, "nobase": False, "adl": True, "grp": "searchsel"})
     for l, s in BAD_LANG:
         P.append({"api": "parse", "s": s, "lang": l, "si": 0, "nobase": False})
         P.append({"api": "ddp", "s": s, "lang": l, "si": 1, "nobase": False})
